@@ -280,14 +280,90 @@ theorem scanL_at_mem {lh : LHeap} {key : Key} : ∀ {ks : List Nat} {i i' c j : 
 
 /-! ### well-formed logical heaps -/
 
+/-- strictly increasing first symbols -/
+def SortedKids (lh : LHeap) (ks : List Nat) : Prop :=
+  ks.Pairwise (fun x y => ∃ a b, Hd lh x a ∧ Hd lh y b ∧ a < b)
+
+theorem SortedKids.transfer {lh lh' : LHeap} {ks : List Nat} (h : SortedKids lh ks)
+    (hh : ∀ x ∈ ks, ∀ c0, Hd lh x c0 → Hd lh' x c0) : SortedKids lh' ks := by
+  unfold SortedKids at *
+  induction ks with
+  | nil => exact List.Pairwise.nil
+  | cons x ks ih =>
+    rw [List.pairwise_cons] at h ⊢
+    refine ⟨?_, ih h.2 (fun y hy => hh y (List.mem_cons_of_mem _ hy))⟩
+    intro y hy
+    obtain ⟨a, b, h1, h2, h3⟩ := h.1 y hy
+    exact ⟨a, b, hh x List.mem_cons_self a h1, hh y (List.mem_cons_of_mem _ hy) b h2, h3⟩
+
+theorem Hd_unique {lh : LHeap} {x a b : Nat} (h1 : Hd lh x a) (h2 : Hd lh x b) : a = b := by
+  obtain ⟨ch, ct, e1, e2⟩ := h1
+  obtain ⟨ch', ct', e3, e4⟩ := h2
+  rw [e1] at e3; cases e3
+  rw [e2] at e4; cases e4; rfl
+
+/-- inserting a child with first symbol `k0` between children with smaller symbols and children the first of which
+    has a larger symbol -/
+theorem SortedKids.insert {lh : LHeap} {pre post : List Nat} {x k0 : Nat} (h : SortedKids lh (pre ++ post))
+    (hx : Hd lh x k0) (hpre : ∀ y ∈ pre, HdLt lh k0 y)
+    (hpost : post = [] ∨ ∃ c ch c0 ct rest, post = c :: rest ∧ lh[c]? = some ch ∧ ch.key = c0 :: ct ∧ k0 < c0) :
+    SortedKids lh (pre ++ x :: post) := by
+  unfold SortedKids at *
+  rw [List.pairwise_append] at h ⊢
+  obtain ⟨h1, h2, h3⟩ := h
+  have hxpost : ∀ y ∈ post, ∃ a b, Hd lh x a ∧ Hd lh y b ∧ a < b := by
+    intro y hy
+    rcases hpost with rfl | ⟨c, ch, c0, ct, rest, rfl, q1, q2, q3⟩
+    · cases hy
+    · have hc : Hd lh c c0 := ⟨ch, ct, q1, q2⟩
+      rcases List.mem_cons.mp hy with rfl | hy'
+      · exact ⟨k0, c0, hx, hc, q3⟩
+      · rw [List.pairwise_cons] at h2
+        obtain ⟨a, b, g1, g2, g3⟩ := h2.1 y hy'
+        have := Hd_unique g1 hc
+        exact ⟨k0, b, hx, g2, by omega⟩
+  refine ⟨h1, ?_, ?_⟩
+  · rw [List.pairwise_cons]; exact ⟨hxpost, h2⟩
+  · intro y hy z hz
+    rcases List.mem_cons.mp hz with rfl | hz'
+    · obtain ⟨c0, g1, g2⟩ := hpre y hy
+      exact ⟨c0, k0, g1, hx, g2⟩
+    · exact h3 y hy z hz'
+
+/-- replacing a child by one with the same first symbol -/
+theorem SortedKids.replace {lh : LHeap} {pre post : List Nat} {c x k0 : Nat} (h : SortedKids lh (pre ++ c :: post))
+    (hc : Hd lh c k0) (hx : Hd lh x k0) : SortedKids lh (pre ++ x :: post) := by
+  unfold SortedKids at *
+  rw [List.pairwise_append] at h ⊢
+  obtain ⟨h1, h2, h3⟩ := h
+  rw [List.pairwise_cons] at h2 ⊢
+  refine ⟨h1, ⟨?_, h2.2⟩, ?_⟩
+  · intro y hy
+    obtain ⟨a, b, g1, g2, g3⟩ := h2.1 y hy
+    have := Hd_unique g1 hc
+    exact ⟨k0, b, hx, g2, by omega⟩
+  · intro y hy z hz
+    rcases List.mem_cons.mp hz with rfl | hz'
+    · obtain ⟨a, b, g1, g2, g3⟩ := h3 y hy c List.mem_cons_self
+      have := Hd_unique g2 hc
+      exact ⟨a, k0, g1, hx, by omega⟩
+    · exact h3 y hy z (List.mem_cons_of_mem _ hz')
+
 /-- `full id` is the absolute key prefix at which node `id` sits — the same in every trie that shares
     the node; all keys have length `L` -/
-structure LOk (L : Nat) (lh : LHeap) (full : Nat → Key) : Prop where
+structure LOk {L : Nat} (E : Enc L) (lh : LHeap) (full : Nat → Key) : Prop where
   kid : ∀ (id : Nat) (n : LN) (c : Nat), lh[id]? = some n → c ∈ n.kids →
       ∃ nc, lh[c]? = some nc ∧ nc.key ≠ [] ∧ full c = full id ++ nc.key
   depth : ∀ (id : Nat) (n : LN), lh[id]? = some n → (full id).length ≤ L
+  /-- the children of every node are ordered by strictly increasing first symbol (a proper radix trie) -/
+  sorted : ∀ (id : Nat) (n : LN), lh[id]? = some n → SortedKids lh n.kids
+  /-- terminal nodes sit at full depth and carry the account whose key is their absolute position -/
+  term : ∀ (id : Nat) (n : LN), lh[id]? = some n → n.terminal = true →
+      (full id).length = L ∧ ∃ d, n.data = some d ∧ E.enc d.addr = full id
+  /-- dyes do not increase downwards -/
+  mono : ∀ (id : Nat) (n : LN) (c : Nat) (nc : LN), lh[id]? = some n → c ∈ n.kids → lh[c]? = some nc → nc.dye ≤ n.dye
 
-theorem LOk.kidsValid {L : Nat} {lh : LHeap} {full : Nat → Key} (hok : LOk L lh full) {id : Nat} {n : LN}
+theorem LOk.kidsValid {L : Nat} {E : Enc L} {lh : LHeap} {full : Nat → Key} (hok : LOk E lh full) {id : Nat} {n : LN}
     (hn : lh[id]? = some n) : KidsValid lh n.kids := by
   intro x hx
   obtain ⟨nc, h1, h2, _⟩ := hok.kid id n x hn hx
